@@ -200,3 +200,651 @@ def c20_sanitise(rep, tier, seed):
         rep.violation("sanitise:" + repr(bad[0]), f"{name} fails for {bad[0]!r} -> {f(bad[0])!r}", dict(obligation=name, inputs=bad[:5]))
     else:
         rep.ob(f"{name} ({n} inputs)", "proved", "runtime-contract", "bounded")
+
+
+def c03_group_lemmas(rep, tier, seed):
+    """Facts about the permutation maps used by the contracts, over all points (z3, reals):
+    R_tri^3 = R_quad^4 = F^2 = id, each map sends the reference facet onto itself, the 2/6/8 maps are pairwise different."""
+    import itertools
+    import time
+
+    import z3
+
+    from contracts import spec
+
+    x, y = z3.Reals("x y")
+
+    def valid(name, goal):
+        s = z3.Solver()
+        s.set("timeout", 10000)
+        s.add(z3.Not(goal))
+        t0 = time.time()
+        r = s.check()
+        if r == z3.unsat:
+            rep.ob(f"lemma: {name}", "proved", "z3", "proved", time.time() - t0)
+        elif r == z3.sat:
+            rep.violation(f"lemma:{name}", f"permutation lemma fails: {name}", dict(obligation=name, model=str(s.model())))
+        else:
+            rep.undecide(f"lemma: {name}", "solver unknown")
+
+    def eq(p, q):
+        return z3.And(*[a == b for a, b in zip(p, q)])
+
+    p = [x, y]
+    valid("tri_rot^3 = id", eq(spec.iterate(spec.tri_rot, 3, p), p))
+    valid("quad_rot^4 = id", eq(spec.iterate(spec.quad_rot, 4, p), p))
+    valid("refl2^2 = id", eq(spec.iterate(spec.refl2, 2, p), p))
+    valid("refl1^2 = id", eq(spec.iterate(spec.refl1, 2, [x]), [x]))
+    in_tri = lambda q: z3.And(q[0] >= 0, q[1] >= 0, q[0] + q[1] <= 1)  # noqa: E731
+    in_quad = lambda q: z3.And(q[0] >= 0, q[1] >= 0, q[0] <= 1, q[1] <= 1)  # noqa: E731
+    valid("tri_rot maps the reference triangle into itself", z3.Implies(in_tri(p), in_tri(spec.tri_rot(p))))
+    valid("refl2 maps the reference triangle into itself", z3.Implies(in_tri(p), in_tri(spec.refl2(p))))
+    valid("quad_rot maps the reference square into itself", z3.Implies(in_quad(p), in_quad(spec.quad_rot(p))))
+    valid("refl2 maps the reference square into itself", z3.Implies(in_quad(p), in_quad(spec.refl2(p))))
+    valid("refl1 maps [0,1] into itself", z3.Implies(z3.And(x >= 0, x <= 1), z3.And(1 - x >= 0, 1 - x <= 1)))
+    for name, rot, nrot in (("triangle", spec.tri_rot, 3), ("quadrilateral", spec.quad_rot, 4)):
+        maps = [(r, f) for r in range(nrot) for f in range(2)]
+        for (r1, f1), (r2, f2) in itertools.combinations(maps, 2):
+            a = spec.iterate(spec.refl2, f1, spec.iterate(rot, r1, p))
+            b = spec.iterate(spec.refl2, f2, spec.iterate(rot, r2, p))
+            s = z3.Solver()
+            s.add(z3.Not(eq(a, b)))
+            ok = s.check() == z3.sat
+            rep.ob(f"lemma: {name} permutations (rot={r1},ref={f1}) and (rot={r2},ref={f2}) differ", "proved" if ok else "refuted",
+                   "z3", "proved")
+
+
+def c03_stacking(rep, tier, seed):
+    """build_optimized_tables stacks the permuted tables with index 2*rot + ref, i.e. code N <-> (N div 2 rotations, N mod 2
+    reflections) as ufcx.h documents: loop nest order, ranges and argument positions are read from the AST."""
+    import ast
+
+    path = os.path.join(REPO, "ffcx/ir/elementtables.py")
+    node = find_def(path, "build_optimized_tables")
+    if node is None:
+        rep.undecide("build_optimized_tables", "anchor missing")
+        return
+    want = {"permute_quadrature_triangle": (3, 2), "permute_quadrature_quadrilateral": (4, 2), "permute_quadrature_interval": (None, 2)}
+    seen = {}
+    for outer in ast.walk(node):
+        if not isinstance(outer, ast.For):
+            continue
+        for call in ast.walk(outer):
+            if isinstance(call, ast.Call) and isinstance(call.func, ast.Name) and call.func.id in want:
+                # enclosing loops of this call, innermost last
+                chain = []
+
+                def find(n, acc):
+                    if n is call:
+                        chain.extend(acc)
+                        return True
+                    for ch in ast.iter_child_nodes(n):
+                        if find(ch, acc + ([n] if isinstance(n, ast.For) else [])):
+                            return True
+                    return False
+
+                find(outer, [])
+                loops = [(ast.unparse(f.target), ast.unparse(f.iter)) for f in chain]
+                key = (call.func.id, call.lineno)
+                if key in seen and len(seen[key][0]) >= len(loops):
+                    continue
+                seen[key] = (loops, [ast.unparse(a) for a in call.args])
+    if not seen:
+        rep.undecide("build_optimized_tables: permutation loops", "anchor missing")
+        return
+    for (fn, line), (loops, args) in sorted(seen.items()):
+        nrot, nref = want[fn]
+        name = f"elementtables.py:{line}: {fn} tables stacked as index 2*rot+ref over rot<{nrot}, ref<{nref}"
+        if nrot is None:
+            ok = len(loops) >= 1 and loops[-1] == (args[1], "range(2)")
+        else:
+            ok = (len(loops) >= 2 and loops[-2][1] == f"range({nrot})" and loops[-1][1] == f"range({nref})"
+                  and args[1] == loops[-1][0] and args[2] == loops[-2][0])
+        if ok:
+            rep.ob(name, "proved", "exhaustive-finite", "exhaustive")
+        else:
+            rep.violation(f"finite:stacking:{fn}", name + f" fails: loops {loops}, call args {args}", dict(obligation=name, loops=loops, args=args))
+
+
+# ------------------------------------------------------------------------------------------ C09
+C99_BASE = {  # UFL handler name -> (real C99 base name, complex C99 base name or None)
+    "sqrt": ("sqrt", "csqrt"), "abs": ("fabs", "cabs"), "cos": ("cos", "ccos"), "sin": ("sin", "csin"), "tan": ("tan", "ctan"),
+    "acos": ("acos", "cacos"), "asin": ("asin", "casin"), "atan": ("atan", "catan"), "cosh": ("cosh", "ccosh"),
+    "sinh": ("sinh", "csinh"), "tanh": ("tanh", "ctanh"), "power": ("pow", "cpow"), "exp": ("exp", "cexp"),
+    "ln": ("log", "clog"), "erf": ("erf", None), "atan2": ("atan2", None), "min_value": ("fmin", None),
+    "max_value": ("fmax", None), "bessel_j": ("jn", None), "bessel_y": ("yn", None),
+    "real": (None, "creal"), "imag": (None, "cimag"), "conj": (None, "conj"),
+}
+
+
+def emitted_function_names():
+    """Names LNodes can put into a MathFunction: handler names of the UFL classes routed to _math_function."""
+    import ffcx.codegeneration.lnodes as L
+
+    return sorted({k._ufl_handler_name_ for k, v in L._ufl_call_lookup.items() if v is L._math_function
+                   and hasattr(k, "_ufl_handler_name_") and k._ufl_handler_name_ != "math_function"})
+
+
+def c09_tables(rep, tier, seed):
+    """dtype maps and math-function names, exhaustive over {4 scalar types} x {emittable functions} x {REAL, SCALAR argument},
+    executed on the real formatter; oracle: the C99 naming scheme."""
+    import numpy as np
+
+    import ffcx.codegeneration.lnodes as L
+    from ffcx.codegeneration.C.formatter import Formatter
+    from ffcx.codegeneration.utils import dtype_to_c_type, dtype_to_scalar_dtype
+
+    want_c = {"float32": "float", "float64": "double", "complex64": "float _Complex", "complex128": "double _Complex"}
+    want_r = {"float32": "float32", "float64": "float64", "complex64": "float32", "complex128": "float64"}
+    for st in want_c:
+        for arg in (st, np.dtype(st), getattr(np, st)):
+            n1 = f"dtype_to_c_type({arg!r}) == {want_c[st]!r}"
+            ok = dtype_to_c_type(arg) == want_c[st]
+            (rep.ob(n1, "proved", "exhaustive-finite", "exhaustive") if ok else
+             rep.violation(f"finite:dtype_to_c_type:{st}", n1 + f" got {dtype_to_c_type(arg)!r}", dict(obligation=n1)))
+            n2 = f"dtype_to_scalar_dtype({arg!r}) == {want_r[st]}"
+            ok = np.dtype(dtype_to_scalar_dtype(arg)).name == want_r[st]
+            (rep.ob(n2, "proved", "exhaustive-finite", "exhaustive") if ok else
+             rep.violation(f"finite:dtype_to_scalar_dtype:{st}", n2, dict(obligation=n2)))
+    names = emitted_function_names()
+    unknown = [n for n in names if n not in C99_BASE]
+    for n in unknown:
+        rep.undecide(f"math function {n}", "no C99 oracle entry for this UFL handler name")
+    for st in want_c:
+        fmt = Formatter(st)
+        is_complex = st.startswith("complex")
+        single = st in ("float32", "complex64")
+        # the REAL / SCALAR / INT / BOOL -> C type-name map
+        for dt, want in ((L.DataType.SCALAR, want_c[st]), (L.DataType.REAL, want_c[want_r[st]]), (L.DataType.INT, "int"),
+                         (L.DataType.BOOL, "bool")):
+            nm = f"Formatter({st})._dtype_to_name({dt.name}) == {want!r}"
+            got = fmt._dtype_to_name(dt)
+            (rep.ob(nm, "proved", "exhaustive-finite", "exhaustive") if got == want else
+             rep.violation(f"finite:_dtype_to_name:{st}:{dt.name}", nm + f" got {got!r}", dict(obligation=nm)))
+        for fn in names:
+            if fn not in C99_BASE:
+                continue
+            rbase, cbase = C99_BASE[fn]
+            for argdt in (L.DataType.REAL, L.DataType.SCALAR):
+                arg_complex = is_complex and argdt == L.DataType.SCALAR
+                base = cbase if arg_complex else rbase
+                if base is None:
+                    continue  # real-only function of a complex argument: rejected by UFL (assumption) / simplified by _math_function
+                nargs = 2 if fn in ("power", "atan2", "min_value", "max_value", "bessel_j", "bessel_y") else 1
+                args = [L.Symbol(f"a{i}", argdt) for i in range(nargs)]
+                text = fmt(L.MathFunction(fn, args))
+                emitted = text.split("(", 1)[0]
+                allowed = {base + "f", base} if single else {base}
+                if fn in ("bessel_j", "bessel_y"):
+                    allowed = {base}  # POSIX jn/yn (double); jnf/ynf are not ISO C
+                if fn == "conj" and single:
+                    allowed = {"conjf", "conj"}
+                nm = f"Formatter({st}): {fn}({argdt.name} argument) is emitted as one of {sorted(allowed)}"
+                if emitted in allowed:
+                    rep.ob(nm, "proved", "exhaustive-finite", "exhaustive", sample=dict(obligation=nm, text=text) if fn == "sqrt" and st == "complex64" else None)
+                else:
+                    rep.violation(f"finite:math:{st}:{fn}:{argdt.name}", nm + f"; got {emitted!r} in {text!r}",
+                                  dict(obligation=nm, text=text, how_to_replay=f"Formatter({st!r})(L.MathFunction({fn!r}, [Symbol of dtype {argdt.name}]))"))
+        # literals: complex literal is (re+I*im), real literal is a plain number
+        t = fmt(L.LiteralFloat(1.5 - 2.25j))
+        nm = f"Formatter({st}): complex literal printed as (re+I*im)"
+        (rep.ob(nm, "proved", "exhaustive-finite", "exhaustive") if t.replace(" ", "") in ("(1.5+I*-2.25)",) else
+         rep.violation(f"finite:complex-literal:{st}", nm + f" got {t!r}", dict(obligation=nm)))
+
+
+def c09_complex_switch(rep, tier, seed):
+    """analysis: complex_mode and remove_complex_nodes depend on issubdtype(scalar_type, complexfloating) and nothing else."""
+    import ast
+
+    path = os.path.join(REPO, "ffcx/analysis.py")
+    for qual, pattern in (("_analyze_form", "complex_mode"), ("_analyze_expression", "remove_complex_nodes")):
+        node = find_def(path, qual)
+        if node is None:
+            rep.undecide(qual, "anchor missing")
+            continue
+        src = ast.unparse(node)
+        if pattern == "complex_mode":
+            assigns = [n for n in ast.walk(node) if isinstance(n, ast.Assign) and any(isinstance(t, ast.Name) and t.id == "complex_mode" for t in n.targets)]
+            ok = (len(assigns) == 1 and ast.unparse(assigns[0].value) == "np.issubdtype(scalar_type, np.complexfloating)"
+                  and "complex_mode=complex_mode" in src)
+            name = "analysis._analyze_form: complex_mode = issubdtype(scalar_type, complexfloating), passed to compute_form_data"
+        else:
+            ifs = [n for n in ast.walk(node) if isinstance(n, ast.If) and "remove_complex_nodes" in ast.unparse(n)]
+            ok = len(ifs) == 1 and ast.unparse(ifs[0].test) == "not np.issubdtype(scalar_type, np.complexfloating)"
+            name = "analysis._analyze_expression: remove_complex_nodes iff scalar type is not complex"
+        (rep.ob(name, "proved", "exhaustive-finite", "exhaustive") if ok else
+         rep.violation(f"finite:{qual}:complex-switch", name, dict(obligation=name)))
+    # forms: the same switch for forms (remove_complex_nodes is applied by UFL through complex_mode)
+
+
+# ------------------------------------------------------------------------------------------ C12
+C12_MODULES = ["ffcx/analysis.py", "ffcx/compiler.py", "ffcx/formatting.py", "ffcx/naming.py", "ffcx/options.py",
+               "ffcx/element_interface.py", "ffcx/ir/representation.py", "ffcx/ir/representationutils.py", "ffcx/ir/integral.py",
+               "ffcx/ir/elementtables.py", "ffcx/ir/analysis/factorization.py", "ffcx/ir/analysis/graph.py",
+               "ffcx/ir/analysis/indexing.py", "ffcx/ir/analysis/modified_terminals.py", "ffcx/ir/analysis/reconstruct.py",
+               "ffcx/ir/analysis/valuenumbering.py", "ffcx/codegeneration/access.py", "ffcx/codegeneration/backend.py",
+               "ffcx/codegeneration/codegeneration.py", "ffcx/codegeneration/common.py", "ffcx/codegeneration/definitions.py",
+               "ffcx/codegeneration/expression_generator.py", "ffcx/codegeneration/geometry.py",
+               "ffcx/codegeneration/integral_generator.py", "ffcx/codegeneration/lnodes.py", "ffcx/codegeneration/optimizer.py",
+               "ffcx/codegeneration/symbols.py", "ffcx/codegeneration/utils.py", "ffcx/codegeneration/C/expression.py",
+               "ffcx/codegeneration/C/file.py", "ffcx/codegeneration/C/form.py", "ffcx/codegeneration/C/formatter.py",
+               "ffcx/codegeneration/C/integral.py", "ffcx/codegeneration/numba/expression.py", "ffcx/codegeneration/numba/file.py",
+               "ffcx/codegeneration/numba/form.py", "ffcx/codegeneration/numba/formatter.py", "ffcx/codegeneration/numba/integral.py"]
+
+# (module, enclosing function, source text of the site) -> why the site cannot influence the generated text
+C12_DISCHARGED = {
+    ("ffcx/ir/representation.py", "_group_integrands_by_quadrature_rule", "set(facet_types)"): "only len() of the set is used",
+    ("ffcx/ir/representation.py", "_group_integrands_by_quadrature_rule", "set(ridge_types)"): "only len() of the set is used",
+    ("ffcx/ir/representation.py", "compute_ir", "set((j[0] for j in i.expression.integrand.keys()))"):
+        "set of basix.CellType: nanobind enum hashes are the integer values (process independent); consumers iterate a handful of ints",
+    ("ffcx/codegeneration/codegeneration.py", "generate_code", "set((i[0] for i in integral_ir.expression.integrand.keys()))"):
+        "set of basix.CellType (integer hashes, process independent)",
+    ("ffcx/ir/integral.py", "_compute_integral_ir", "set()"): "_argkeys of ints / active_table_names: only membership, union, and sorted() consumers",
+    ("ffcx/ir/integral.py", "_compute_integral_ir", "set(w)"): "set of ints merged into _argkeys (ints hash to themselves)",
+    ("ffcx/ir/analysis/indexing.py", "map_indexed_arg_components", "set(d1)"): "only len() of the set is used",
+    ("ffcx/ir/analysis/indexing.py", "map_component_tensor_arg_components", "set(d2)"): "only len() of the set is used",
+    ("ffcx/ir/analysis/graph.py", "_count_nodes_with_unique_post_traversal", "set()"): "'handled' is used for membership only",
+    ("ffcx/ir/analysis/factorization.py", "handle_sum", "set(fac0)"): "argument keys (tuples of ints) wrapped in sorted()",
+    ("ffcx/ir/analysis/factorization.py", "handle_sum", "set(fac1)"): "argument keys (tuples of ints) wrapped in sorted()",
+    ("ffcx/ir/analysis/factorization.py", "handle_conditional", "set(fac1.keys())"): "wrapped in sorted()",
+    ("ffcx/ir/analysis/factorization.py", "handle_conditional", "set(fac2.keys())"): "wrapped in sorted()",
+    ("ffcx/codegeneration/common.py", "template_keys", "set((fname for _, fname, _, _ in string.Formatter().parse(template) if fname))"):
+        "used in an equality assertion only",
+    ("ffcx/codegeneration/access.py", "cell_vertices", "set(coordinate_element.sub_elements)"): "unpacked as a singleton",
+    ("ffcx/codegeneration/access.py", "cell_edge_vectors", "set(coordinate_element.sub_elements)"): "unpacked as a singleton",
+    ("ffcx/codegeneration/access.py", "facet_edge_vectors", "set(coordinate_element.sub_elements)"): "unpacked as a singleton",
+    ("ffcx/codegeneration/C/form.py", "generator", "set(d.keys())"): "equality assertion only",
+    ("ffcx/codegeneration/C/expression.py", "generator", "set(d.keys())"): "equality assertion only",
+    ("ffcx/codegeneration/numba/file.py", "generator", "set(d.keys())"): "equality assertion only",
+    ("ffcx/codegeneration/numba/form.py", "generator", "set(d.keys())"): "equality assertion only",
+    ("ffcx/codegeneration/numba/expression.py", "generator", "set(d.keys())"): "equality assertion only",
+    ("ffcx/codegeneration/numba/integral.py", "generator", "set(d.keys())"): "equality assertion only",
+    ("ffcx/codegeneration/expression_generator.py", "__init__", "set()"): "_ufl_names: collected, never iterated into the text",
+    ("ffcx/codegeneration/integral_generator.py", "__init__", "set()"): "_ufl_names: collected, never iterated into the text",
+    ("ffcx/codegeneration/expression_generator.py", "generate_geometry_tables", "set()"): "cell names; iterated through sorted()",
+    ("ffcx/codegeneration/integral_generator.py", "generate_geometry_tables", "set()"): "cell names; iterated through sorted()",
+    ("ffcx/analysis.py", "analyze_ufl_objects", "set(coordinate_elements)"): "wrapped in sorted(key=repr)",
+    ("ffcx/codegeneration/lnodes.py", "__hash__", "hash(self.value)"): "__hash__ implementations are not iterated into text",
+    ("ffcx/codegeneration/lnodes.py", "__hash__", "hash(self.name)"): "__hash__ implementation",
+    ("ffcx/codegeneration/lnodes.py", "__hash__", "hash(self.global_index.__repr__)"): "__hash__ implementation",
+    ("ffcx/codegeneration/lnodes.py", "__hash__", "hash(self.lhs)"): "__hash__ implementation",
+    ("ffcx/codegeneration/lnodes.py", "__hash__", "hash(self.rhs)"): "__hash__ implementation",
+    ("ffcx/codegeneration/lnodes.py", "__hash__", "hash(tuple(self.args))"): "__hash__ implementation",
+    ("ffcx/codegeneration/lnodes.py", "__hash__", "hash(self.array)"): "__hash__ implementation",
+    ("ffcx/codegeneration/lnodes.py", "__hash__", "hash(self.expr)"): "__hash__ implementation",
+    ("ffcx/codegeneration/lnodes.py", "__hash__", "hash(tuple(self.statements))"): "__hash__ implementation",
+    ("ffcx/codegeneration/lnodes.py", "__hash__", "hash(self.symbol)"): "__hash__ implementation",
+    ("ffcx/codegeneration/lnodes.py", "__hash__", "hash(self.as_tuple())"): "__hash__ implementation",
+    ("ffcx/ir/representation.py", "_compute_form_ir", "id(obj)"): "key of a lookup in object_names (names given in the UFL file); the id never reaches the text",
+    ("ffcx/ir/representation.py", "_compute_form_ir", "id(form_data.original_form)"): "key of a lookup in object_names only",
+    ("ffcx/ir/representation.py", "_compute_expression_ir", "id(obj)"): "key of a lookup in object_names only",
+    ("ffcx/ir/representation.py", "_compute_expression_ir", "id(original_expr)"): "key of a lookup in object_names only",
+    ("ffcx/ir/analysis/factorization.py", "<module>", "noargs = {}"): "shared empty-dict sentinel, compared and read but never mutated",
+    ("ffcx/ir/analysis/graph.py", "rebuild_with_scalar_subexpressions", "set()"): "'handled' is used for membership only",
+    ("ffcx/ir/analysis/indexing.py", "map_indexed_arg_components", "i.count()"): "UFL index count used to find a position in the free-index list of the same expression",
+    ("ffcx/ir/analysis/indexing.py", "map_component_tensor_arg_components", "mi[k].count()"): "position lookup of a UFL index within the same expression",
+    ("ffcx/ir/analysis/reconstruct.py", "handle_index_sum", "mi[0].count()"): "position lookup of a UFL index within the same expression",
+    ("ffcx/ir/representationutils.py", "__hash__", "hash"): "__hash__ implementation (sha1 of the points)",
+}
+
+
+def c12_sites(tree_root=None):
+    """All syntactic sources of seed-/history-dependence in the code-generation modules:
+    set()/frozenset() constructions and set displays/comprehensions, id(), hash(), .ufl_id(), .count(),
+    and module-level mutable state (counters, caches) that functions use."""
+    import ast
+
+    root = tree_root or REPO
+    sites = []
+    for rel in C12_MODULES:
+        path = os.path.join(root, rel)
+        if not os.path.exists(path):
+            sites.append((rel, "<module>", "<file missing>", "missing"))
+            continue
+        txt, tree = file_ast(path)
+        # module-level mutable state
+        for st in tree.body:
+            if isinstance(st, ast.Assign | ast.AnnAssign) and st.value is not None:
+                v = st.value
+                src = ast.unparse(v)
+                if (isinstance(v, ast.Call) and ast.unparse(v.func) in ("itertools.count", "count", "collections.defaultdict", "defaultdict",
+                                                                        "dict", "list", "set")) or (
+                        isinstance(v, ast.List | ast.Set) or (isinstance(v, ast.Dict) and not v.keys)):
+                    names = [ast.unparse(t) for t in (st.targets if isinstance(st, ast.Assign) else [st.target])]
+                    sites.append((rel, "<module>", f"{', '.join(names)} = {src}"[:120], "module-state"))
+
+        def visit(node, fname):
+            for ch in ast.iter_child_nodes(node):
+                f2 = ch.name if isinstance(ch, ast.FunctionDef) else fname
+                if isinstance(ch, ast.Call):
+                    fn = ast.unparse(ch.func)
+                    if fn in ("set", "frozenset") or fn in ("id", "hash") or fn.endswith(".ufl_id") or fn.endswith(".count") and not ch.args:
+                        sites.append((rel, fname, ast.unparse(ch)[:160], "call"))
+                if isinstance(ch, ast.Set | ast.SetComp):
+                    sites.append((rel, fname, ast.unparse(ch)[:160], "set-display"))
+                if isinstance(ch, ast.Attribute) and ch.attr == "__hash__" and not isinstance(node, ast.Call):
+                    pass
+                visit(ch, f2)
+
+        visit(tree, "<module>")
+    return sites
+
+
+def c12_site_obligations(rep, tier, seed):
+    """Every syntactic source of nondeterminism is discharged by a recorded reason; an unknown site is undecided
+    (the replay below decides whether it shows in the text)."""
+    sites = c12_sites()
+    new = []
+    for rel, fname, src, kind in sites:
+        reason = C12_DISCHARGED.get((rel, fname, src))
+        if reason is None and kind == "call" and fname == "__hash__":
+            reason = "__hash__ implementation"
+        name = f"{rel}::{fname}: `{src}` cannot order or name anything in the generated text"
+        if reason is not None:
+            rep.ob(name + f" [{reason}]", "proved", "syntactic-rule", "exhaustive", sample=dict(site=f"{rel}::{fname}", source=src, reason=reason)
+                   if len(rep.samples) < 2 else None)
+        else:
+            new.append((rel, fname, src, kind))
+    rep.extra["c12_sites_total"] = len(sites)
+    rep.extra["c12_sites_new"] = [f"{a}::{b}: {c}" for a, b, c, _ in new]
+    return new
+
+
+def c12_replay(rep, tier, seed, new_sites=()):
+    """Bounded second half: regenerate corpus modules in fresh processes with other hash seeds / histories."""
+    from concurrent.futures import ThreadPoolExecutor
+
+    from kernelvc import corpus as C
+    from runtime.determinism import first_diff, generate
+
+    if tier == "quick":
+        jobs = [("demo/HyperElasticity.py", {}), ("demo/FacetIntegrals.py", {}), ("demo/CellGeometry.py", {}),
+                ("corpus/tp_sumfact.py", {"sum_factorization": True}), ("corpus/mixed_enriched_symmetric.py", {}),
+                ("corpus/vertex_ridge.py", {}), ("corpus/expressions.py", {}), ("corpus/subdomains.py", {})]
+        variants = [(1 + seed % 5, 0), (0, 2)]
+    else:
+        jobs = C.demo_files() + C.corpus_files()
+        variants = [(1, 0), (2 + seed % 7, 0), (0, 1), (0, 2)]
+
+    def one(j):
+        rel, opts = j
+        try:
+            base = generate(rel, opts, 0, 0)
+            out = []
+            for s, h in variants:
+                g = generate(rel, opts, s, h)
+                out.append((s, h, g[0] == base[0], None if g[0] == base[0] else first_diff(base[1], g[1])))
+            return rel, opts, out, None
+        except Exception as e:  # noqa: BLE001
+            return rel, opts, [], str(e)[-600:]
+
+    differs = False
+    with ThreadPoolExecutor(8) as ex:
+        for rel, opts, out, err in ex.map(one, jobs):
+            if err:
+                rep.error(f"determinism replay {rel}", err)
+                continue
+            for s, h, same, diff in out:
+                name = f"regenerating {rel} {opts} with PYTHONHASHSEED={s}, history={h} gives byte-identical text"
+                if same:
+                    rep.ob(name, "proved", "runtime-contract", "bounded")
+                else:
+                    differs = True
+                    rep.violation(f"determinism:{rel}:{'seed' if h == 0 else 'history'}", name + f": first difference at line {diff[0]}: {diff[1]!r} vs {diff[2]!r}",
+                                  dict(obligation=name, first_difference=diff,
+                                       how_to_replay=f"runtime/determinism.py generate({rel!r}, {opts!r}, seed, history) for (0,0) and ({s},{h})"))
+    if new_sites and not differs:
+        for rel, fname, src, kind in new_sites:
+            rep.undecide(f"{rel}::{fname}: `{src}`", "new source of seed-/history-dependence not covered by a discharge rule; "
+                         "the replay over the corpus did not show a difference")
+
+
+# ------------------------------------------------------------------------------------------ C13
+def c13_option_signature(rep, tier, seed):
+    """jit._compute_option_signature separates every pair of option settings that select different code and ignores the
+    insertion order: exhaustive over the finite-choice options x a grid of numeric values, on the real function."""
+    import itertools
+
+    import numpy as np
+
+    import ffcx.codegeneration.jit as J
+    from ffcx.options import FFCX_DEFAULT_OPTIONS, get_options
+
+    base = {k: v[1] for k, v in FFCX_DEFAULT_OPTIONS.items()}
+    grid = {
+        "scalar_type": ["float32", "float64", "complex64", "complex128"],
+        "part": ["full", "diagonal"],
+        "sum_factorization": [False, True],
+        "language": ["C", "numba"],
+        "table_rtol": [1e-6, 1e-5],
+        "table_atol": [1e-9, 1e-8],
+        "epsilon": [1e-14, 1e-12],
+    }
+    keys = list(grid)
+    settings = []
+    for combo in itertools.product(*[grid[k] for k in keys]):
+        d = dict(base)
+        d.update(dict(zip(keys, combo)))
+        settings.append(d)
+    sigs = {}
+    n = 0
+    for d in settings:
+        s = J._compute_option_signature(d)
+        key = tuple(d[k] for k in keys)
+        if s in sigs and sigs[s] != key:
+            a, b = sigs[s], key
+            diff = [k for k, x, y in zip(keys, a, b) if x != y]
+            rep.violation(f"optsig:collision:{','.join(diff)}", f"_compute_option_signature gives the same signature for options differing in {diff}: {dict(zip(keys, a))} vs {dict(zip(keys, b))}",
+                          dict(obligation="option signature is injective on code-selecting options", a=dict(zip(keys, a)), b=dict(zip(keys, b)),
+                               how_to_replay="ffcx.codegeneration.jit._compute_option_signature on the two dicts"))
+            continue
+        sigs[s] = key
+        n += 1
+    rep.ob(f"_compute_option_signature is injective on {len(settings)} settings of the code-selecting options "
+           f"({' x '.join(str(len(grid[k])) for k in keys)})", "proved" if n == len(settings) else "refuted", "exhaustive-finite", "exhaustive")
+    # insertion order
+    d = settings[7]
+    rev = dict(reversed(list(d.items())))
+    ok = J._compute_option_signature(d) == J._compute_option_signature(rev)
+    (rep.ob("_compute_option_signature ignores the insertion order of the options", "proved", "exhaustive-finite", "exhaustive") if ok else
+     rep.violation("optsig:order", "_compute_option_signature depends on the insertion order of the options", dict(a=str(d), b=str(rev))))
+    # equivalent spellings of the scalar type may share a module, different kernels may not: np.dtype / type spellings
+    for st in grid["scalar_type"]:
+        for other in grid["scalar_type"]:
+            if st == other:
+                continue
+            a = J._compute_option_signature(dict(base, scalar_type=np.dtype(st)))
+            b = J._compute_option_signature(dict(base, scalar_type=np.dtype(other)))
+            nm = f"option signatures of scalar_type=np.dtype({st}) and np.dtype({other}) differ"
+            (rep.ob(nm, "proved", "exhaustive-finite", "exhaustive") if a != b else
+             rep.violation(f"optsig:collision:scalar_type:{st}:{other}", nm + " fails", dict(a=st, b=other)))
+    # compilation inputs
+    sig = J._compilation_signature
+    cases = [([], False), ([], True), (["-O2"], False), (["-O3"], False), (["-O2", "-g"], False), (["-O2 -g"], False)]
+    seen = {}
+    for args, dbg in cases:
+        s = sig(args, dbg)
+        nm = f"_compilation_signature({args}, {dbg}) is unique among the sampled compile inputs"
+        if s in seen:
+            rep.violation(f"compsig:{args}:{dbg}", nm + f" fails: equals that of {seen[s]}", dict(a=str((args, dbg)), b=str(seen[s])))
+        else:
+            seen[s] = (args, dbg)
+            rep.ob(nm, "proved", "runtime-contract", "bounded")
+
+
+def c13_compute_signature(rep, tier, seed):
+    """naming.compute_signature separates requests that differ in integrand, points, kind or tag (bounded pairs, real function),
+    and the generated names are C identifiers."""
+    import re
+
+    import basix.ufl
+    import numpy as np
+    import ufl
+
+    from ffcx import naming
+
+    mesh = ufl.Mesh(basix.ufl.element("Lagrange", "triangle", 1, shape=(2,)))
+    V = ufl.FunctionSpace(mesh, basix.ufl.element("Lagrange", "triangle", 1))
+    u, v, f = ufl.TrialFunction(V), ufl.TestFunction(V), ufl.Coefficient(V)
+    forms = [u * v * ufl.dx, ufl.inner(ufl.grad(u), ufl.grad(v)) * ufl.dx, f * u * v * ufl.dx, u * v * ufl.ds, u * v * ufl.dx(1),
+             2.0 * u * v * ufl.dx, u * v * ufl.dx(degree=3)]
+    sigs = {}
+    for i, fm in enumerate(forms):
+        s = naming.compute_signature([fm], "tag")
+        nm = f"compute_signature separates form #{i} from the other sampled forms"
+        if s in sigs:
+            rep.violation(f"sig:forms:{sigs[s]}:{i}", nm + f": equals that of form #{sigs[s]}", dict(a=str(forms[sigs[s]]), b=str(fm)))
+        else:
+            sigs[s] = i
+            rep.ob(nm, "proved", "runtime-contract", "bounded")
+    for a, b in (("tag", "tag2"), ("('v', 'cell', 0, (1,))", "('v', 'cell', 0, (2,))")):
+        ok = naming.compute_signature([forms[0]], a) != naming.compute_signature([forms[0]], b)
+        nm = f"compute_signature separates tags {a!r} / {b!r}"
+        (rep.ob(nm, "proved", "runtime-contract", "bounded") if ok else rep.violation(f"sig:tag:{a}", nm + " fails", dict(a=a, b=b)))
+    # evaluation points: every perturbation that changes the kernel changes the name
+    e = ufl.grad(f)
+    rng = np.random.default_rng(seed)
+    base = np.array([[0.125, 0.25], [0.5, 0.25], [0.1, 0.7]])
+    big = rng.random((600, 2)) * 0.5  # > 1000 entries: numpy's repr elides the middle
+    cases = [("1e-10 perturbation of one coordinate", base, base + np.array([[0, 0], [1e-10, 0], [0, 0]])),
+             ("relative 1e-13 perturbation", base, base * (1 + 1e-13)),
+             ("one interior point of a 600-point set moved by 0.1", big, np.where(np.arange(1200).reshape(600, 2) == 601, big + 0.1, big)),
+             ("points in another order", base, base[::-1].copy()),
+             ("one point more", base, np.vstack([base, [[0.3, 0.3]]]))]
+    for what, p, q in cases:
+        sa = naming.compute_signature([(e, p)], "t")
+        sb = naming.compute_signature([(e, q)], "t")
+        nm = f"compute_signature separates expressions evaluated at different points ({what})"
+        if sa != sb:
+            rep.ob(nm, "proved", "runtime-contract", "bounded")
+        else:
+            rep.violation(f"sig:points:{what}", nm + " fails: both requests get the same module name",
+                          dict(obligation=nm, points_a=repr(p[:3]), points_b=repr(q[:3]), max_abs_difference=float(np.max(np.abs(p - q))) if p.shape == q.shape else None,
+                               how_to_replay="ffcx.naming.compute_signature([(expr, points)], tag) for both point sets"))
+    same = naming.compute_signature([(e, base)], "t") == naming.compute_signature([(e, base.copy())], "t")
+    (rep.ob("compute_signature is a function of the point values (equal arrays, equal name)", "proved", "runtime-contract", "bounded") if same else
+     rep.violation("sig:points:unstable", "equal point arrays give different signatures", {}))
+    ident = re.compile(r"[A-Za-z_][A-Za-z0-9_]*\Z")
+    names = [naming.form_name(forms[0], 0, "pre"), naming.integral_name(forms[0], "cell", 0, (1, 2), "pre"),
+             naming.integral_name(forms[0], "cell", 0, "otherwise", "pre"), naming.expression_name((e, base), "pre")]
+    for n_ in names:
+        ok = bool(ident.match(n_)) and bool(re.match(r"(form|integral|expression)_[0-9a-f]{40}\Z", n_))
+        (rep.ob(f"generated name {n_[:14]}... is a C identifier of the form kind_<40 hex digits>", "proved", "runtime-contract", "bounded") if ok else
+         rep.violation(f"name:{n_[:12]}", f"{n_!r} is not a valid generated identifier", dict(name=n_)))
+    ok = len({naming.integral_name(forms[0], t, i, s, "p") for t in ("cell", "exterior_facet") for i in (0, 1) for s in ((1,), (2,), "otherwise")}) == 12
+    (rep.ob("integral_name separates integral type, form index and subdomain id", "proved", "runtime-contract", "bounded") if ok else
+     rep.violation("name:integral-tag", "integral_name collides across (type, form id, subdomain id)", {}))
+
+
+def c13_module_names_distinct(rep, tier, seed):
+    """Within one module all generated object names are distinct valid C identifiers (every corpus module)."""
+    import re
+
+    from checks.e3desc import run_all
+
+    ident = re.compile(r"[A-Za-z_][A-Za-z0-9_]*\Z")
+    for f in run_all(tier):
+        if "error" in f or "names" not in f:
+            continue
+        names = f["names"]
+        ok = len(names) == len(set(names)) and all(ident.match(n) for n in names)
+        nm = f"{f['file']}: {len(names)} object names are distinct C identifiers"
+        (rep.ob(nm, "proved", "runtime-contract", "bounded") if ok else rep.violation(f"names:{f['file']}", nm + " fails", dict(names=names[:10])))
+
+
+# ------------------------------------------------------------------------------------------ C19
+def c19_rule_ids(rep, tier, seed):
+    """QuadratureRule.id is injective on the rules that can meet in one kernel: all rules of one cell type from
+    cell x degree 0..30 x scheme x polyset (and the vertex scheme). Exhaustive on the real functions."""
+    import basix
+    import numpy as np
+
+    from ffcx.element_interface import create_quadrature, reference_cell_vertices
+    from ffcx.ir.representationutils import QuadratureRule
+
+    cells = ["interval", "triangle", "tetrahedron", "quadrilateral", "hexahedron", "prism"]
+    schemes = ["default", "GLL", "Gauss-Jacobi", "Xiao-Gimbutas"]
+    total = 0
+    for cell in cells:
+        rules = {}  # id -> (points bytes, label)
+        labels = {}
+        for scheme in schemes:
+            for degree in range(0, 31):
+                try:
+                    pts, wts = create_quadrature(cell, degree, scheme, [])
+                except Exception:  # noqa: BLE001 - scheme not available for this cell/degree
+                    continue
+                r = QuadratureRule(np.asarray(pts), np.asarray(wts))
+                hash(r)
+                key = r.points.tobytes()
+                labels.setdefault(key, f"{scheme} degree {degree}")
+                rid = r.id()
+                rules.setdefault(rid, set()).add(key)
+        # vertex scheme: the cell's vertices
+        v = reference_cell_vertices(cell)
+        r = QuadratureRule(v, np.ones(len(v)) / len(v))
+        hash(r)
+        labels.setdefault(r.points.tobytes(), "vertex scheme")
+        rules.setdefault(r.id(), set()).add(r.points.tobytes())
+        n_rules = sum(len(v) for v in rules.values())
+        total += n_rules
+        coll = {rid: sorted(labels[k] for k in ks) for rid, ks in rules.items() if len(ks) > 1}
+        name = f"QuadratureRule.id is injective on the {n_rules} distinct rules of cell type {cell}"
+        if not coll:
+            rep.ob(name, "proved", "exhaustive-finite", "exhaustive", sample=dict(obligation=name))
+        else:
+            for rid, labs in sorted(coll.items()):
+                rep.violation(f"ruleid:{cell}:{'|'.join(labs)}", f"{name} fails: rules {labs} share the id {rid!r} "
+                              f"(weights_{rid}, FE*_Q{rid}, sv_{rid}, sp_{rid} would be declared twice in one kernel)",
+                              dict(obligation=name, cell=cell, rules=labs, id=rid,
+                                   how_to_replay=f"u*v*dx over {cell} with the two rules in one subdomain; compile the generated C"))
+    rep.extra["quadrature_rules_enumerated"] = total
+    # ids are identifier fragments
+    import re
+
+    r = QuadratureRule(np.asarray([[0.25, 0.25]]), np.asarray([0.5]))
+    hash(r)
+    ok = bool(re.match(r"[0-9a-f]+\Z", r.id()))
+    (rep.ob("QuadratureRule.id consists of hex digits", "proved", "exhaustive-finite", "exhaustive") if ok else
+     rep.violation("ruleid:charset", f"id {r.id()!r} is not a hex string", {}))
+
+
+# ------------------------------------------------------------------------------------------ C10
+def c10_clamp(rep, tier, seed):
+    """clamp_table_small_numbers changes an entry by at most atol + rtol*|n| and only to one of `numbers` (bounded: random tables)."""
+    import numpy as np
+
+    from ffcx.ir.elementtables import clamp_table_small_numbers
+
+    rng = np.random.default_rng(seed)
+    bad = 0
+    n = 0
+    for rtol, atol in ((1e-6, 1e-9), (1e-3, 1e-4), (0.0, 1e-12)):
+        for _ in range(60):
+            t = rng.choice([-1.0, 0.0, 1.0, 0.5, 2.0], size=(2, 3, 4)) + rng.normal(scale=rng.choice([1e-12, 1e-8, 1e-5, 1e-2]), size=(2, 3, 4))
+            orig = t.copy()
+            out = clamp_table_small_numbers(t.copy(), rtol=rtol, atol=atol)
+            changed = out != orig
+            n += 1
+            for x, y in zip(orig[changed], out[changed]):
+                if y not in (-1.0, 0.0, 1.0) or abs(x - y) > atol + rtol * abs(y) + 1e-18:
+                    bad += 1
+            if np.any(np.abs(out - orig) > atol + rtol * 1.0 + 1e-18):
+                bad += 1
+    name = f"clamp_table_small_numbers: entries move by at most atol + rtol*|n| and only onto -1, 0, 1 ({n} random tables)"
+    (rep.ob(name, "proved", "runtime-contract", "bounded") if bad == 0 else
+     rep.violation("clamp:tolerance", name + " fails", dict(obligation=name, bad=bad)))
+
+
+def c10_sumfact_scope(rep, tier, seed):
+    """use_sum_factorization requires a cell integral (AST)."""
+    import ast
+
+    node = find_def(os.path.join(REPO, "ffcx/ir/representation.py"), "_group_integrands_by_quadrature_rule")
+    if node is None:
+        rep.undecide("_group_integrands_by_quadrature_rule", "anchor missing")
+        return
+    assigns = [n for n in ast.walk(node) if isinstance(n, ast.Assign) and ast.unparse(n.targets[0]) == "use_sum_factorization"]
+    name = "representation: use_sum_factorization = sum_factorization and integral_type == 'cell'"
+    ok = len(assigns) == 1 and ast.unparse(assigns[0].value) == "sum_factorization and integral_type == 'cell'"
+    (rep.ob(name, "proved", "exhaustive-finite", "exhaustive") if ok else rep.violation("finite:sumfact-scope", name, dict(got=[ast.unparse(a) for a in assigns])))
